@@ -175,6 +175,60 @@ def check(ctx):
             else:
                 r2.bad(V(r2.id, fid, "unpropagated:%s" % short_path(c.best),
                          "Result of filesystem-mutating step %s is not propagated: %s" % (c.best, how), c.file, c.line))
+    # a closure that returns the Result of a mutating step hands it to whoever calls the closure: the adapter it was given to (`opt.map(|c| write(&c))`,
+    # `.then(..)`, `.and_then(..)`) must itself yield a value that carries the Result, and that value must be propagated like any other
+    for fid in sorted(scope):
+        f = P.fns[fid]
+        if "::{closure" not in fid or "{promoted#" in fid or "Result<" not in f.locals[0]:
+            continue
+        if not any((is_fs_mut(c) or any(fsreach(t) for t in P.targets(c))) and c.bb in f.reach_blocks for c in f.calls):
+            continue
+        parent = fid.rsplit("::{closure", 1)[0]
+        holders = [P.fns[k] for k in P.fns if (k == parent or parent in {b_.get("inl") for b_ in P.fns[k].d.get("blocks", [])}) and "{promoted#" not in k]
+        for g in holders:
+            for c2 in g.calls:
+                if c2.bb not in g.reach_blocks:
+                    continue
+                takes = False
+                for a_ in c2.args:
+                    o_ = g.origin(a_)
+                    if o_[0] in ("aggr", "const") and isinstance(o_[1], dict) and o_[1].get("closure") == fid:
+                        takes = True
+                if not takes:
+                    continue
+                n_sites += 1
+                dty2 = c2.term.get("dest_ty", "")
+                if "Result<" not in dty2:
+                    r2.bad(V(r2.id, g.id, "closure-result-swallowed:%s" % c2.name,
+                             "a closure returning the Result of a filesystem-mutating step is handed to `%s`, whose value carries no Result: a failed write goes unnoticed" % c2.name, c2.file, c2.line))
+                    continue
+                ok2, how2, _ = try_propagated(g, c2)
+                kill2 = result_killed_unexamined(g, c2)
+                # ... possibly after being turned inside out (`.transpose()?`, `.unwrap_or(Ok(()))?`): follow the value through the calls it is moved into
+                cur, hops = c2, 0
+                while (not ok2 or kill2) and hops < 3:
+                    hops += 1
+                    nxt = None
+                    for c3 in g.calls:
+                        if c3 is cur or c3.bb not in g.reach_blocks or "Result<" not in c3.term.get("dest_ty", ""):
+                            continue
+                        for a_ in c3.args[:1]:
+                            o_ = g.origin(a_)
+                            while o_[0] == "proj":
+                                o_ = o_[1]
+                            if o_[0] == "call" and o_[1].bb == cur.bb:
+                                nxt = c3
+                    if nxt is None:
+                        break
+                    cur = nxt
+                    ok2, how2, _ = try_propagated(g, cur)
+                    kill2 = result_killed_unexamined(g, cur)
+                if not ok2 or kill2:
+                    r2.bad(V(r2.id, g.id, "closure-result-dropped:%s" % c2.name,
+                             "`%s(..)` yields %s from a closure that performs a filesystem-mutating step, and that value is %s: a failed write goes unnoticed"
+                             % (c2.name, dty2[:60], kill2 or "not propagated (%s)" % how2), c2.file, c2.line))
+                else:
+                    r2.ok("%s: the Result produced inside the closure given to %s is propagated (%s)" % (short_path(g.id), c2.name, how2))
     # a buffering writer reports late write errors only through flush()/into_inner(); its Drop discards them.  Every buffered writer built on
     # the generation path must be flushed with a propagated result before it goes out of scope (expected count on this tree: zero writers)
     n_buf = 0
